@@ -11,13 +11,13 @@ From CG Require Export Spec.MemSpec Harness.MemChk.
 (* ------------------------------------------------------------------------------------ *)
 (* 0. The histories the property quantifies over *)
 
-(* what the code allows: add(Interval) takes any well-formed event whose payload carries no
-   recurring_event_id (series 0; a Plain payload qualifies); a pattern has a positive period
+(* what the code allows: add(Interval) takes any well-formed event, with or without a
+   recurring_event_id in its payload; a pattern has a positive period
    and duration; removal arguments are arbitrary; slices have a < b strictly inside the
    sentinels *)
 Definition op_wf (o : mop) : Prop :=
   match o with
-  | MAdd ev => wf_ivl ev /\ canon_ivl ev /\ series_of ev = 0%N
+  | MAdd ev => wf_ivl ev /\ canon_ivl ev
   | MAddPat period phase dur tag => 0 < period /\ 0 < dur
   | MRemove _ => True
   | MRemoveSeries _ => True
@@ -435,12 +435,12 @@ Proof.
       * eapply Forall_impl; [|exact H6]. intros q (Hb & Hq). split; [lia|exact Hq].
       * constructor; [|constructor]. unfold pat_ok. cbn [p_ser p_period p_dur]. lia.
   - (* remove(Interval) *)
-    cbn [astep mstep]. destruct (N.eqb (series_of ev) 0) eqn:E0.
-    + pose proof (remove_static_sim m s ev HR) as H.
-      destruct (bag_remove ev (a_bag s)) as [bag'|].
-      * destruct (remove_static m ev) as [m' ok]. cbn [fst snd] in *. destruct H as [-> H].
-        exists true. auto.
-      * rewrite H. exists false. cbn [fst snd]. auto.
+    cbn [astep mstep]. pose proof (remove_static_sim m s ev HR) as Hst.
+    destruct (bag_remove ev (a_bag s)) as [bag'|].
+    { destruct (remove_static m ev) as [m' ok]. cbn [fst snd] in *. destruct Hst as [-> Hst].
+      exists true. auto. }
+    rewrite Hst. destruct (N.eqb (series_of ev) 0) eqn:E0.
+    + exists false. cbn [fst snd]. auto.
     + pose proof (remove_instance_sim m s ev HR) as H.
       destruct (afind (series_of ev) (a_series s)) as [x|].
       2:{ rewrite H. exists false. cbn [fst snd]. auto. }
@@ -473,11 +473,11 @@ Qed.
 Theorem mstep_failed_unchanged m o : fst (snd (mstep m o)) = [false] -> fst (mstep m o) = m.
 Proof.
   destruct o as [ev|period phase dur tag|ev|ev|a b rv]; cbn [mstep fst snd]; try discriminate.
-  - destruct (N.eqb (series_of ev) 0).
-    + unfold remove_static. destruct (in_list ev (m_static m)); cbn [fst snd]; [discriminate|reflexivity].
-    + unfold remove_instance. destruct (find_pat (series_of ev) (m_pats m)) as [p|]; [|reflexivity].
-      destruct (st ev) as [t|]; [|reflexivity].
-      destruct (existsb _ _); cbn [fst snd]; [discriminate|reflexivity].
+  - unfold remove_static. destruct (in_list ev (m_static m)); cbn [fst snd]; [discriminate|].
+    destruct (N.eqb (series_of ev) 0); [reflexivity|].
+    unfold remove_instance. destruct (find_pat (series_of ev) (m_pats m)) as [p|]; [|reflexivity].
+    destruct (st ev) as [t|]; [|reflexivity].
+    destruct (existsb _ _); cbn [fst snd]; [discriminate|reflexivity].
   - destruct (N.eqb (series_of ev) 0).
     + unfold remove_static. destruct (in_list ev (m_static m)); cbn [fst snd]; [discriminate|reflexivity].
     + destruct (find_pat (series_of ev) (m_pats m)) as [p|]; cbn [fst snd]; [discriminate|reflexivity].
@@ -487,11 +487,11 @@ Qed.
 Theorem astep_failed_unchanged s o : snd (astep s o) = Some false -> fst (astep s o) = s.
 Proof.
   destruct o as [ev|period phase dur tag|ev|ev|a b rv]; cbn [astep fst snd]; try discriminate.
-  - destruct (N.eqb (series_of ev) 0).
-    + destruct (bag_remove ev (a_bag s)); cbn [fst snd]; [discriminate|reflexivity].
-    + destruct (afind (series_of ev) (a_series s)) as [x|]; [|reflexivity].
-      destruct (st ev) as [t|]; [|reflexivity].
-      destruct (is_occurrence x t); cbn [fst snd]; [discriminate|reflexivity].
+  - destruct (bag_remove ev (a_bag s)); cbn [fst snd]; [discriminate|].
+    destruct (N.eqb (series_of ev) 0); [reflexivity|].
+    destruct (afind (series_of ev) (a_series s)) as [x|]; [|reflexivity].
+    destruct (st ev) as [t|]; [|reflexivity].
+    destruct (is_occurrence x t); cbn [fst snd]; [discriminate|reflexivity].
   - destruct (N.eqb (series_of ev) 0).
     + destruct (bag_remove ev (a_bag s)); cbn [fst snd]; [discriminate|reflexivity].
     + destruct (afind (series_of ev) (a_series s)) as [x|]; cbn [fst snd]; [discriminate|reflexivity].
